@@ -266,6 +266,7 @@ VARIANTS = {
 # in every tier and reported as "<pid><-<rule>": e.g. an observable estimator can only equal <O> in the model's state if the
 # distribution that is sampled (probability) is the one psi / rho define (C01.R1-R3, C02).
 NEIGHBOURS = {
+    "C01": [("c20", ("C20.R2",))],                                    # "the modulus depends only on the amplitude network": the two networks of a state do not share parameter storage
     "C03": [("c04", ("C04.R2", "C04.R3", "C04.R4"))],                 # gradients in a rotated basis are built from the rotated amplitudes / probabilities and their terms
     "C06": [("c03", ("C03.R2",))],                                   # gradient layout = parameter registration order
     "C08": [("c01", ("C01.R1", "C01.R2", "C01.R3")), ("c02", ("C02.R",))],  # sampled distribution = |psi|^2 / diag(rho); rho well-formed
